@@ -149,6 +149,31 @@ PROPS["C10"] = dict(
     rule="bounded: networks x optional added ELSE rule x pause points; distinct = distinct (network, rule, pause) triples",
 )
 
+PROPS["C03"] = dict(
+    level="other",
+    explanation="Partial claim. Agreement of two independent numerical solvers is a whole-program differential property: no function contract "
+                "states it. Decided deductively: (1) BinFile.read's conversion block - cut mechanically out of the current source on every run "
+                "(pyvc.extract; dropped: the binary parsing and DataFrame assembly before it, the epilogue after it) and executed symbolically for an "
+                "arbitrary table entry and link type under each of the ten flow units: every reported head / pressure / demand / flow / velocity / "
+                "headloss is the raw EPANET value times the factor of its own physical quantity (constants written from the property text), and the "
+                "status table maps EPANET's codes 0-2 / 3 / 4 / 5-7 to Closed / Open / Active / Open; counter-models are replayed on real pandas / "
+                "numpy; (2) the util conversion functions are the physical constants and mutually inverse (C17 contracts, tagged C03); (3) lemma: "
+                "with the writer's from_si (C12 pairing contracts) and EPANET equivariant under its unit systems (assumption on the external "
+                "binary) the SI results do not depend on the INP flow unit. Bounded differentials against the EPANET 2.2 library shipped in the "
+                "repository: EPANET stepped through its toolkit API vs BinFile.read for 10 units (decides the binary layout parsing independently of "
+                "wntr.epanet.util); EpanetSimulator across the 10 units; EPANET on the original INP text vs EpanetSimulator on the model read from it "
+                "(every INP file in the repository EPANET accepts); WNTRSimulator vs EpanetSimulator (DD and PDD) on the listed common-feature "
+                "networks at every report step.",
+    trusted_base=["EPANET 2.2 shared library (prebuilt binary in wntr/epanet/libepanet): external, trusted; assumed equivariant under its unit systems",
+                  "pandas / numpy elementwise arithmetic and boolean-mask assignment (array stub in the symbolic run; real in replay and cross-check)",
+                  "wntr.epanet.toolkit ctypes wrapper (used by the bounded oracle)"],
+    not_decided=["agreement of the two solvers on networks outside the listed ones (e.g. generated networks with pumps/valves in every unit)",
+                 "link 'setting', quality and reaction-rate tables of BinFile.read", "control-timing agreement beyond the listed networks' schedules",
+                 "Anytown under PDD: EPANET's own results differ between unit systems by O(1) in the flows (ill-conditioned; excluded, not a WNTR defect)"],
+    assumptions=["tolerances (relative to full scale): toolkit vs binary 2e-5, across units 3e-3, reader validation 3e-4, WNTR vs EPANET 3e-3; statuses exact"],
+    rule="bounded: listed networks x flow units x demand model; distinct = distinct (network, unit / demand model) pairs",
+)
+
 PROPS["C20"] = dict(
     level="proof",
     explanation="Deductive core: Pattern.at / TimeSeries.at / Demands.at (pattern value at a time, base x pattern, sum over the entries x multiplier, "
